@@ -23,7 +23,7 @@ import typing
 from dataclasses import dataclass
 from typing import Any, Dict, Generic, List, NamedTuple, Optional, TypedDict, TypeVar, Union
 
-from harness.core import Ctx, Driver, InfraError, canon
+from harness.core import Ctx, Driver, InfraError
 
 ID = "C16"
 CLAIM = {
@@ -602,7 +602,7 @@ def gen_targets(rng, table):
     """targets for the last class and one random class: bare, closed args, TypeVar args"""
     out = []
     n = len(table)
-    for c in {n - 1, rng.randrange(n)}:
+    for c in sorted({n - 1, rng.randrange(n)}):
         ps = table[c]["params"]
         out.append({"cls": c, "args": None})
         if ps:
@@ -773,14 +773,12 @@ def gen_systematic(thorough):
     for parent in parents:
         for child in children(parent):
             classes = [parent, child]
-            yield classes
+            yield classes, True
             if thorough:
-                # a grandchild that binds the child's parameters, and a diamond sibling
-                for g_args in ([A("bool")], [TV(1)]):
-                    yield classes + [{"bases": [{"cls": 1, "args": None}], "generic": None, "ann": []}]
-                    yield classes + [{"bases": [{"cls": 1, "args": None}, {"cls": 0, "args": None}],
-                                      "generic": None, "ann": []}]
-                    break
+                # a grandchild below a bare child, and a diamond closing over the parent (one kind each, rotating)
+                yield classes + [{"bases": [{"cls": 1, "args": None}], "generic": None, "ann": []}], False
+                yield classes + [{"bases": [{"cls": 1, "args": None}, {"cls": 0, "args": None}],
+                                  "generic": None, "ann": []}], False
 
 
 def systematic_targets(table):
@@ -904,7 +902,7 @@ def same_type(real_tp, hint):
         return False
 
 
-def run_case(ctx: Ctx, real: Real, kind, classes, targets, origin, want_model=True):
+def run_case(ctx: Ctx, real: Real, kind, classes, targets, origin):
     """builds the classes, runs the direct oracle, returns the driver requests with their real observations"""
     table = derive_table(kind, classes)
     case_base = {"kind": kind, "classes": classes, "origin": origin}
@@ -1248,10 +1246,10 @@ def gen_cases(ctx: Ctx, n_random):
             yield kind, classes, targets, f"family:{name}"
     # exhaustive over the small vocabulary; the kind rotates so every kind sees every shape over 5 seeds,
     # the thorough tier runs every shape for every kind
-    for idx, classes in enumerate(gen_systematic(ctx.tier == "thorough")):
+    for idx, (classes, all_kinds) in enumerate(gen_systematic(ctx.tier == "thorough")):
         if ctx.tier != "thorough" and (idx // len(KINDS)) % 2 != ctx.seed % 2:
             continue                                   # quick: half of the shapes per seed
-        kinds = KINDS if ctx.tier == "thorough" else [KINDS[(idx + ctx.seed // 2) % len(KINDS)]]
+        kinds = KINDS if ctx.tier == "thorough" and all_kinds else [KINDS[(idx + ctx.seed // 2) % len(KINDS)]]
         for kind in kinds:
             if kind == "namedtuple" and not namedtuple_ok(classes):
                 kind = "dataclass"
@@ -1308,7 +1306,7 @@ def run(ctx: Ctx):
     ctx.extra["exhaustive"] = False
     ctx.extra["exhaustive_part"] = ("every two-class chain over 7 parents x 5 argument choices per parameter x 5 child "
                                     "bodies x Generic[...] orders (quick: half of the shapes per seed parity, kinds rotate with the seed; all kinds and shapes in "
-                                    "thorough, which also adds a grandchild and a diamond per chain)")
+                                    "thorough, which also adds a grandchild and a diamond per chain for one rotating kind)")
 
 
 def search(ctx: Ctx):
